@@ -17,7 +17,7 @@ DEFAULT = dict(
     p_group_result=0.25, p_flatten=0.4, p_as=0.12, p_named=0.25,
     p_opt=0.25, p_group_param=0.25, p_soft=0.35, p_obj=0.5, p_nest=0.25,
     p_dup=0.06, p_cycle=0.1, p_unknown_dep=0.08, p_foreign_dep=0.12,
-    n_types=8, early_scopes=0.3, p_multi_dec=0.25, p_group_dec=0.3, p_dec_self=0.85, p_one_obj=0.0, p_soft_pattern=0.0, p_dec_chain=0.0, p_dup_as=0.03, p_dup_dec_key=0.0, p_variadic=0.12, p_ns=0.2, p_wrap_ty=0.08, p_group_chain=0.02, p_unexp=0.1, p_late_scope_cycle=0.02, p_dec_extra=0.03,
+    n_types=8, early_scopes=0.3, p_multi_dec=0.25, p_group_dec=0.3, p_dec_self=0.85, p_one_obj=0.0, p_soft_pattern=0.0, p_dec_chain=0.0, p_dup_as=0.03, p_dup_dec_key=0.0, p_variadic=0.12, p_ns=0.2, p_wrap_ty=0.08, p_group_chain=0.02, p_unexp=0.1, p_late_scope_cycle=0.02, p_dec_extra=0.03, p_empty_invoke=0.04,
 )
 
 PROFILES = {
@@ -44,7 +44,7 @@ PROFILES = {
     "decor": dict(w_decorate=7, p_multi_dec=0.35, p_group_dec=0.35, n_types=5, p_fault=0.12, w_scope=3, p_dec_chain=0.35,
                   p_dup_dec_key=0.04, p_ns=0.45, p_dec_retry=0.12, p_dec_extra=0.12),
     "callbacks": dict(p_callback=0.8, p_fault=0.3, w_decorate=3, n_types=6),
-    "dry": dict(p_dry=1.0, p_fault=0.0, p_callback=0.35, p_variadic=0.3, w_decorate=3),
+    "dry": dict(p_dry=1.0, p_fault=0.0, p_callback=0.35, p_variadic=0.3, w_decorate=3, p_empty_invoke=0.15),
 }
 
 
@@ -460,10 +460,14 @@ class Gen:
             return
         n = self.r.choice([1, 1, 2, 2, 3])
         pleaves = self.gen_params(s, n)
-        if not pleaves and self.chance(0.8):
+        if self.chance(self.p["p_empty_invoke"]):
+            pleaves = []        # func() / func() error: nothing to resolve, the function still has to run (or not: dry)
+        elif not pleaves and self.chance(0.8):
             return
         f = self.new_fn(params=self.structure_params(pleaves), results=[], err=self.chance(0.6))
         self.decorate_fn(f, role="inv")
+        if not pleaves:
+            f.pop("variadic", None)
         if f.get("err") and (f.get("plan") or ["ok"])[0] == "err" and self.chance(0.5):
             f["err_concrete"] = True     # declared as `*UserErr`, a concrete type implementing error
         self.ops.append(dict(op="invoke", scope=s, fn=f["id"]))
@@ -685,7 +689,7 @@ def result_keys(fn):
     return out
 
 
-def generate_reentrant(seed, count):
+def generate_reentrant(seed, count, provides=False):
     """core histories in which some constructors / decorators / invoked
     functions call Invoke on the container from inside their own body (harness
     field `nested`): the nested function asks for one of the body's own
@@ -771,6 +775,32 @@ def generate_reentrant(seed, count):
                 c["fns"].append(fns[nid])
                 host.setdefault("nested", []).append(dict(exec=0, scope=rng.randrange(nsc), fn=nid))
                 nid += 1
+        if provides and reg:
+            # a body that REGISTERS a constructor (Provide from inside user code), followed by ordinary
+            # registrations that depend on it.  Not modelled: such histories are only run for C14 (dig,
+            # Visualize and String must not panic afterwards).
+            for _ in range(rng.randint(1, 2)):
+                host = fns[rng.choice(reg)]
+                t = 10 + rng.randrange(6)
+                gparams = []
+                gk = [r for f in c["fns"] for r in result_keys(f) if r["k"] == "group"]
+                if gk and rng.random() < 0.5:
+                    r = rng.choice(gk)
+                    gparams = [dict(k="obj", fields=[dict(k="group", ty=r["ty"], group=r["group"], soft=False)])]
+                fns[nid] = dict(id=nid, params=gparams, results=[dict(k="single", ty=t, name=0, **{"as": []})], err=False)
+                c["fns"].append(fns[nid])
+                host.setdefault("nested", []).append(dict(exec=0, scope=rng.randrange(nsc), fn=nid, op="provide"))
+                nid += 1
+                for extra in range(rng.randint(1, 2)):
+                    fns[nid] = dict(id=nid, params=[dict(k="single", ty=t, name=0, opt=False)],
+                                    results=[dict(k="single", ty=(t + 1 + extra) % 16, name=3, **{"as": []})], err=False)
+                    c["fns"].append(fns[nid])
+                    c["ops"].append(dict(op="provide", scope=rng.randrange(nsc), fn=nid, export=False))
+                    nid += 1
+                fns[nid] = dict(id=nid, params=[dict(k="obj", fields=[dict(k="single", ty=t, name=0, opt=True)])], results=[], err=False)
+                c["fns"].append(fns[nid])
+                c["ops"].append(dict(op="invoke", scope=0, fn=nid))
+                nid += 1
         out.append(c)
     return out
 
@@ -793,6 +823,23 @@ def generate_viz(seed, count, decorators=False, pool_decorators=False):
         parents = [None]
         provided = []          # keys offered: ("s",ty,name) / ("g",ty,group)
         chosen = rng.sample(pool, rng.randint(3, 9))
+        heavy = None
+        if rng.random() < 0.25:
+            # a value group with three or more member constructors, a LATER one of which fails
+            feeders = {}
+            for sg in pool:
+                for r0 in sg["results"]:
+                    for r in (r0["fields"] if r0["k"] == "obj" else [r0]):
+                        if r["k"] == "group":
+                            feeders.setdefault((r["ty"], r["group"]), [])
+                            if sg not in feeders[(r["ty"], r["group"])]:
+                                feeders[(r["ty"], r["group"])].append(sg)
+            big = [k for k, v in feeders.items() if len(v) >= 3]
+            if big:
+                heavy = rng.choice(big)
+                grp = rng.sample(feeders[heavy], rng.randint(3, min(4, len(feeders[heavy]))))
+                rest = [sg for sg in rng.sample(pool, rng.randint(1, 3)) if sg not in grp]
+                chosen = grp + rest
         if rng.random() < 0.4:
             for _ in range(rng.randint(1, 2)):
                 ops.append(dict(op="scope", parent=rng.randrange(len(parents))))
@@ -814,6 +861,12 @@ def generate_viz(seed, count, decorators=False, pool_decorators=False):
                         r["as"] = list(asv)
             if rng.random() < 0.25:
                 f["plan"] = [rng.choice(["err", "panic"]) if f["err"] else "panic", "ok", "ok"]
+            if heavy is not None and sg in chosen[:4]:
+                # the group's members: the first two succeed, a later one fails
+                idx = chosen.index(sg)
+                f.pop("plan", None)
+                if idx >= 2 and idx == len([x for x in chosen[:4] if x in grp]) - 1:
+                    f["plan"] = [rng.choice(["err", "panic"]) if f["err"] else "panic", "ok", "ok"]
             f["lens"] = [[rng.choice([0, 1, 2]) for _ in range(6)] for _ in range(3)]
             if rng.random() < 0.3:
                 f["callback"] = True
@@ -852,6 +905,25 @@ def generate_viz(seed, count, decorators=False, pool_decorators=False):
                 for r0 in f["results"]:
                     for r in (r0["fields"] if r0["k"] == "obj" else [r0]):
                         provided.append(("s", r["ty"], r.get("name", 0)))
+        if pool_decorators:
+            # reflect.MakeFunc constructors registered with dig.LocationForPC(<declared function>): their
+            # CallbackInfo.Name must be that function's name (what wrappers such as fx rely on)
+            used = {f.get("pool") for f in fns}
+            free = [i for i in range(len(pool)) if i not in used]
+            taken = {k[1] for k in provided if k[0] == "s"}
+            for _ in range(rng.randint(0, 2)):
+                tys = [t for t in range(16) if t not in taken]
+                if not free or not tys:
+                    break
+                t = rng.choice(tys)
+                taken.add(t)
+                lp = free.pop(rng.randrange(len(free)))
+                f = dict(id=nfn, params=[], results=[dict(k="single", ty=t, name=0, **{"as": []})], err=True,
+                         callback=True, loc_pool=lp, plan=[rng.choice(["ok", "ok", "err"]), "ok", "ok"])
+                nfn += 1
+                fns.append(f)
+                ops.append(dict(op="provide", scope=rng.randrange(len(parents)), fn=f["id"], export=False))
+                provided.append(("s", t, 0))
         if decorators and provided:
             for k in rng.sample(provided, min(len(provided), rng.randint(1, 3))):
                 if k[0] == "s":
@@ -866,6 +938,11 @@ def generate_viz(seed, count, decorators=False, pool_decorators=False):
                 nfn += 1
                 fns.append(f)
                 ops.append(dict(op="decorate", scope=rng.randrange(len(parents)), fn=f["id"]))
+        if heavy is not None:
+            f = dict(id=nfn, params=[dict(k="obj", fields=[dict(k="group", ty=heavy[0], group=heavy[1], soft=False)])], results=[], err=True)
+            nfn += 1
+            fns.append(f)
+            ops.append(dict(op="invoke", scope=0, fn=f["id"]))
         for _ in range(rng.randint(2, 5)):
             leaves = []
             for _ in range(rng.randint(1, 3)):
